@@ -331,7 +331,9 @@ def classify_off(case, res):
         orient = group_orientations(gs)
         if rot_only:
             found.append(('offset.far-apart.start-vertex-differs', 'groups far apart: same rings as alone but with another start vertex'))
-        elif empties and first_polygon(gs) == empties[0] and -1 in orient and not mixed_orientation(orient) and not W:
+        elif (empties and first_polygon(gs) == empties[0] and -1 in orient and not mixed_orientation(orient)
+              and sum(area2(p) for p in allG) < 0 and sum(area2(p) for p in W) >= 0):
+            # the groups alone give clockwise rings; the joint result is empty or has counter-clockwise outlines
             found.append(('offset.orientation-lost.empty-polygon-group-first',
                           'the first Polygon group has no vertex: CheckReverseOrientation takes is_reversed = false from it and the '
                           'reversed (clockwise) groups of the call vanish in the clean-up union (empty result)'))
